@@ -1160,3 +1160,82 @@ mod tests {
         );
     }
 }
+
+/// Kani proof harnesses (all `u32` positions, loop-free: each run is a complete proof).
+#[cfg(feature = "verif_kani")]
+mod verif_kani {
+    use super::*;
+
+    fn any_span() -> Span {
+        let (a, b): (u32, u32) = (kani::any(), kani::any());
+        kani::assume(a <= b);
+        Span::new(Pos(a), Pos(b))
+    }
+
+    /// `Span::new` accepts exactly `begin <= end` ...
+    #[kani::proof]
+    fn c05_span_new_accepts_ordered() {
+        let s = any_span();
+        assert!(s.begin() <= s.end());
+        kani::cover!(s.begin() == s.end());
+        kani::cover!(s.begin() < s.end());
+    }
+
+    /// ... and panics otherwise.
+    #[kani::proof]
+    #[kani::should_panic]
+    fn c05_span_new_rejects_reversed() {
+        let (a, b): (u32, u32) = (kani::any(), kani::any());
+        kani::assume(a > b);
+        let _ = Span::new(Pos(a), Pos(b));
+    }
+
+    /// `merge` of well-formed spans is well-formed, contains both arguments and is the least such span:
+    /// the algebra behind "every node's span lies inside its parent's span".
+    #[kani::proof]
+    fn c05_span_merge_is_least_upper_bound() {
+        let (s, t) = (any_span(), any_span());
+        let m = s.merge(t);
+        assert!(m.begin() <= m.end());
+        assert!(m.begin() <= s.begin() && s.end() <= m.end());
+        assert!(m.begin() <= t.begin() && t.end() <= m.end());
+        assert!(m.begin() == s.begin() || m.begin() == t.begin());
+        assert!(m.end() == s.end() || m.end() == t.end());
+        assert!(s.merge(t) == t.merge(s));
+        assert!(s.merge(s) == s);
+        kani::cover!(m != s && m != t);
+    }
+
+    /// `end_span`, `contains` and `intersects` against their (closed) interval definitions.
+    #[kani::proof]
+    fn c05_span_contains_intersects() {
+        let (s, t) = (any_span(), any_span());
+        let p: u32 = kani::any();
+        assert!(s.contains(Pos(p)) == (s.begin().get() <= p && p <= s.end().get()));
+        let e = s.end_span();
+        assert!(e.begin() == s.end() && e.end() == s.end());
+        assert!(s.contains(e.begin()));
+        let lo = if s.begin() >= t.begin() { s.begin() } else { t.begin() };
+        let hi = if s.end() <= t.end() { s.end() } else { t.end() };
+        assert!(s.intersects(t) == (lo <= hi));
+        assert!(s.intersects(t) == t.intersects(s));
+        kani::cover!(s.intersects(t));
+        kani::cover!(!s.intersects(t));
+    }
+
+    /// `Pos + n` / `Pos - n` are the arithmetic on offsets whenever the result is representable.
+    #[kani::proof]
+    fn c05_pos_offset_arithmetic() {
+        let (a, n): (u32, u32) = (kani::any(), kani::any());
+        if let Some(r) = a.checked_add(n) {
+            assert!((Pos(a) + n).get() == r);
+            let mut q = Pos(a);
+            q += n;
+            assert!(q.get() == r);
+        }
+        if let Some(r) = a.checked_sub(n) {
+            assert!((Pos(a) - n).get() == r);
+        }
+        kani::cover!(a.checked_add(n).is_some());
+    }
+}
